@@ -13,8 +13,6 @@ package types
 //@ ensures result == spendable(Bank, addr)
 //@ func (k BankKeeper) GetAllBalances
 //@ trusted
-//@ spec bankM2A(b BankState, mod Str, to Addr, amt sdk.Coins) BankState uninterpreted
-//@ spec bankA2M(b BankState, from Addr, mod Str, amt sdk.Coins) BankState uninterpreted
 //@ func (k BankKeeper) SendCoinsFromAccountToModule
 //@ trusted
 //@ modifies Bank
